@@ -18,7 +18,7 @@ def handle (line : String) : String :=
   match line.trimAscii.toString.splitOn " " with
   | ["ping"] => "ok pong"
   | ["lex", src] => "ok " ++ lexOp src
-  | ["exec", toks] => "ok " ++ execOp toks
+  | ["exec", toks, tb] => "ok " ++ execOp toks (parseInt tb)
   | ["compile", prog] => "ok " ++ compileOp prog
   | ["generate", tb, pf, tracks] =>
       "ok bin=" ++ hex (generateSong (parseInt tb) (parseInt pf) (parseTracks tracks))
